@@ -103,6 +103,11 @@ func genC08(t *core.Tape, tier string) *Scenario {
 		c2 := c
 		c2.SendComp = ""
 		c2.Accept = nil // ... and knows gzip only
+		if t.Bool(1, 2, "second.client.protocol") {
+			// ... and speaks another protocol (a gateway's backend client)
+			c2.Proto = Proto((int(c.Proto) + 1 + t.Choose(2, "second.client.protocol.which")) % 3)
+			sc.Notes["second_client_other_protocol"]++
+		}
 		sc.Clients = append(sc.Clients, c2)
 		sc.Notes["second_client_without_send_compression"]++
 	}
@@ -134,7 +139,7 @@ func genC08(t *core.Tape, tier string) *Scenario {
 			p.Task = i % 2
 		}
 		resent := false
-		if len(sc.Clients) > 1 && !concurrent && p.Kind == KUnary {
+		if len(sc.Clients) > 1 && !concurrent && (p.Kind == KUnary || p.Kind == KServer) {
 			for _, q := range sc.Calls {
 				if q.Kind == KUnary && q.Client == 0 && q.bad == "" && q.Handler == p.Handler && t.Bool(1, 2, "resend.through.second.client") {
 					p.Client, p.ReuseRequestOf = 1, q.ID
